@@ -48,12 +48,50 @@ TYPES = {
     "dict": ("Dict[str, int]", [("{'a': 1}", '{"a":1}', {"a": 1}), ("{}", "{}", {})], ["{'k': 2}", "{'j': 3}"]),
 }
 TYPE_ORDER = ["int", "str", "float", "bool", "optint", "list", "enum", "dict"]
-MUTABLE = {"list", "dict"}
+
+# The second alphabet ("X types"): Optional[...] of parametrized generics / str / enum / a Union, a Tuple, and
+# class-typed parameters (a dataclass, Optional[dataclass], a class given by class_path, Optional[class]).  They are
+# not part of the product over TYPE_ORDER (cost); `xsignatures` puts one of them at every position of every pattern.
+# An argv token is a string (one token; "@MOD" = name of the generated module) or, for the options of a dataclass, a
+# list of [suffix, token] pairs ("--<name><suffix>=<token>": [".lr", "0.5"] = the field option, ["", json] = the
+# whole value).  Values of class types are always complete (every field / init argument given), so that nothing
+# depends on how a partial value is merged with a default instance.
+_OPT0 = ("Opt(lr=0.5, steps=6)", [[".lr", "0.5"], [".steps", "6"]], {"lr": 0.5, "steps": 6})
+_OPT1 = ("Opt(lr=2.0, steps=1)", [["", '{"lr":2,"steps":1}']], {"lr": 2, "steps": 1})
+_CLS0 = (
+    "BigModel(size=4)",
+    '{"class_path":"@MOD.BigModel","init_args":{"size":4}}',
+    {"class_path": "@MOD.BigModel", "init_args": {"size": 4}},
+)
+_CLS1 = (
+    "Model(size=2)",
+    '{"class_path":"@MOD.Model","init_args":{"size":2}}',
+    {"class_path": "@MOD.Model", "init_args": {"size": 2}},
+)
+_NULL = ("None", "null", None)
+XTYPES = {
+    "optstr": ("Optional[str]", [("'ab'", "ab", "ab"), _NULL], ["None", "'d2'"]),
+    "optlist": ("Optional[List[int]]", [("[1, 2]", "[1,2]", [1, 2]), _NULL], ["None", "[4, 5]"]),
+    "optdict": ("Optional[Dict[str, int]]", [("{'a': 1}", '{"a":1}', {"a": 1}), _NULL], ["None", "{'j': 3}"]),
+    "optenum": ("Optional[E]", [("E.B", "B", "B"), _NULL], ["None", "E.C"]),
+    "opttuple": ("Optional[Tuple[int, str]]", [("(1, 'a')", '[1,"a"]', [1, "a"]), _NULL], ["None", "(2, 'b')"]),
+    "optunion": ("Optional[Union[int, List[int]]]", [("[3]", "[3]", [3]), ("6", "6", 6)], ["None", "7"]),
+    "tuple": ("Tuple[int, str]", [("(1, 'a')", '[1,"a"]', [1, "a"]), ("(0, 'zz')", '[0,"zz"]', [0, "zz"])], ["(2, 'b')", "(3, 'c')"]),
+    "dc": ("Opt", [_OPT0, _OPT1], ["Opt(lr=0.25, steps=2)", "Opt(lr=1.5, steps=3)"]),
+    "optdc": ("Optional[Opt]", [_OPT0, _NULL], ["None", "Opt(lr=0.25, steps=2)"]),
+    "cls": ("Model", [_CLS0, _CLS1], ["Model(size=8)", "BigModel(size=9)"]),
+    "optcls": ("Optional[Model]", [_CLS0, _NULL], ["None", "Model(size=8)"]),
+}
+X_ORDER = list(XTYPES)
+TYPES.update(XTYPES)
+OPTIONAL = {"optint"} | {t for t in XTYPES if t.startswith("opt")}  # omitted without default -> None
+NEVER_POSITIONAL = {"dc"}  # a dataclass-typed parameter is a group of options --name.field (and --name = whole value)
+MUTABLE = {"list", "dict", "optlist", "optdict", "dc", "optdc"}  # dataclass form: default through default_factory
 
 HEADER = '''\
 import dataclasses
 import enum
-from typing import Dict, List, Optional
+from typing import Dict, List, Optional, Tuple, Union
 
 
 class E(enum.Enum):
@@ -80,6 +118,25 @@ def _token(name):
     t = Token(name)
     TOKENS.append(t)
     return t
+
+'''
+
+# only in programs that use a class-typed parameter: a dataclass with one field without default (so that a parameter
+# of this type without default is really required) and a class with a subclass, both to be given by class_path
+HEADER_X = '''
+@dataclasses.dataclass
+class Opt:
+    lr: float
+    steps: int = 5
+
+
+class Model:
+    def __init__(self, size: int = 1):
+        self.size = size
+
+
+class BigModel(Model):
+    pass
 
 '''
 
@@ -112,19 +169,35 @@ def signatures(n, max_dev=None):
             yield [[t, d, k] for t, (d, k) in zip(tv, pat)]
 
 
+def xsignatures(n):
+    """Every pattern of length n x every position x every X type at that position, `int` elsewhere."""
+    for pat in patterns(n):
+        for pos in range(n):
+            for x in X_ORDER:
+                yield [[x if i == pos else "int", d, k] for i, (d, k) in enumerate(pat)]
+
+
 def rotate(sig, by):
-    """Same pattern, every type moved `by` places along the type alphabet (sibling components of list / dict forms)."""
-    return [[TYPE_ORDER[(TYPE_ORDER.index(t) + by) % len(TYPE_ORDER)], d, k] for t, d, k in sig]
+    """Same pattern, every type moved `by` places along its type alphabet (sibling components of list / dict forms)."""
+    out = []
+    for t, d, k in sig:
+        order = TYPE_ORDER if t in TYPE_ORDER else X_ORDER
+        out.append([order[(order.index(t) + by) % len(order)], d, k])
+    return out
 
 
 def is_positional(param, as_pos):
     t, d, _ = param
-    return bool(as_pos) and not d and t != "optint"
+    return bool(as_pos) and not d and t not in OPTIONAL and t not in NEVER_POSITIONAL
 
 
 def is_required(param):
     t, d, _ = param
-    return not d and t != "optint"
+    return not d and t not in OPTIONAL
+
+
+def uses_class_types(program):
+    return any(t in ("dc", "optdc", "cls", "optcls") for leaf in leaves(program) for st in leaf for t, _, _ in st["sig"])
 
 
 # ---------------------------------------------------------------------------------------------------
@@ -273,7 +346,7 @@ def _class_src(program):
 def source(program):
     form = program["form"]
     lv = leaves(program)
-    src = HEADER
+    src = HEADER + (HEADER_X if uses_class_types(program) else "")
     if form in ("func", "list", "dict"):
         for leaf in lv:
             s = leaf[-1]
@@ -346,10 +419,15 @@ def build(stages, inp, all_leaves=None):
     cut = len(stages) - inp.get("selcfg", 0)
     if cut < 1:
         return None
+    # second config source: a --config given at parser level cfg2 (0 = next to the first one at the top level) that
+    # holds the parameters assigned to channel "d", nested in sections for the levels below cfg2
+    cfg2 = inp.get("cfg2")
+    if cfg2 is not None and (cfg2 >= cut or cfg_level != "top"):
+        return None
     missing, calls, per_stage = [], [], []
     for si, stage in enumerate(stages):
         sig, names, role = stage["sig"], stage["names"], stage["role"]
-        opts, poss, cfgd, kwargs = [], [], {}, {}
+        opts, poss, cfgd, cfgd2, kwargs = [], [], {}, {}, {}
         prefix_open = True  # every positional of this level so far is on the command line
         pos_from_cfg = pos_missing = False
         for i, (p, n) in enumerate(zip(sig, names)):
@@ -375,27 +453,32 @@ def build(stages, inp, all_leaves=None):
                     if not prefix_open:
                         return None  # a later positional on the command line while an earlier one is not
                     poss.append(tok)
-                elif style == "eq":
-                    opts.append(f"--{n}={tok}")
                 else:
-                    opts += [f"--{n}", tok]
+                    for suffix, t in [["", tok]] if isinstance(tok, str) else tok:  # dataclass: one option per field
+                        opts += [f"--{n}{suffix}={t}"] if style == "eq" else [f"--{n}{suffix}", t]
             else:
-                cfgd[n] = cval
+                if ch == "d":  # the second config file
+                    if cfg2 is None or si < cfg2:
+                        return None  # a file given at a deeper level cannot hold parameters of the levels above it
+                    cfgd2[n] = cval
+                else:
+                    cfgd[n] = cval
                 if pos:
                     prefix_open = False
                     pos_from_cfg = True
-        per_stage.append((opts, poss, cfgd, pos_from_cfg, pos_missing))
+        per_stage.append((opts, poss, cfgd, pos_from_cfg, pos_missing, cfgd2))
         if stage["callee"]:
             calls.append([stage["callee"], kwargs, stage.get("mkind")])
     # command line, level by level
     levels, files, top_cfg = [], [], Sec()
     cfg_last = inp.get("cfgpos", "first") == "last"
     node = top_cfg
+    top2 = node2 = Sec()
     # A level with a positional that is not on the command line (taken from the config, or omitted): the token of a
     # later sub-command would be consumed as that positional's value, so nothing of the later levels can be written.
     blocked_at, blocked_by_cfg = None, False
     for si, stage in enumerate(stages):
-        opts, poss, cfgd, pos_from_cfg, pos_missing = per_stage[si]
+        opts, poss, cfgd, pos_from_cfg, pos_missing, cfgd2 = per_stage[si]
         head = []
         if stage["token"] is not None:
             if si >= cut:
@@ -405,11 +488,16 @@ def build(stages, inp, all_leaves=None):
             elif blocked_at is not None:
                 if opts or poss or (cfgd and cfg_level != "top") or cut < len(stages):
                     return None
-                if blocked_by_cfg and not missing and not cfgd:
+                if cfg2 is not None and si <= cfg2:
+                    return None  # the level of the second config cannot be reached on the command line
+                if blocked_by_cfg and not missing and not (cfgd or cfgd2):
                     return None  # the sub-command has to be selected through a non-empty section of the config
             else:
                 head = [stage["token"]]
             node = node.setdefault(stage["token"], Sec())
+            if cfg2 is not None and si > cfg2:
+                node2 = node2.setdefault(stage["token"], Sec())
+        node2.update(cfgd2)
         body = (opts + poss) if layout == "of" else (poss + opts)
         if cfgd:
             if cfg_level == "own":
@@ -435,9 +523,14 @@ def build(stages, inp, all_leaves=None):
                 for i, (p, n) in enumerate(zip(st["sig"], st["names"])):
                     node[n] = given(p, i, st["role"], 0)[2]
     top_cfg = _prune(top_cfg)
+    top2 = _prune(top2)
     if top_cfg:
         files.append(top_cfg)
         cfgtok = ["--config", f"@CFG{len(files) - 1}"]
+    if top2:  # first token of its level: directly after the first --config when both are at the top level
+        files.append(top2)
+        levels[cfg2][1] = ["--config", f"@CFG{len(files) - 1}"] + levels[cfg2][1]
+    if top_cfg:
         levels[0][1] = levels[0][1] + cfgtok if cfg_last else cfgtok + levels[0][1]
     argv = [t for head, body in levels for t in head + body]
     if missing:
@@ -476,8 +569,10 @@ def _flat(stages):
     return [(si, i) for si, s in enumerate(stages) for i in range(len(s["sig"]))]
 
 
-def _inp(sel, assign, as_pos=True, layout="ol", style="eq", cfg="top", cfgpos="first", sib=None, selcfg=0):
+def _inp(sel, assign, as_pos=True, layout="ol", style="eq", cfg="top", cfgpos="first", sib=None, selcfg=0, cfg2=None):
     out = {"sel": sel, "as_pos": as_pos, "assign": assign, "layout": layout, "style": style, "cfg": cfg}
+    if cfg2 is not None:
+        out["cfg2"] = cfg2  # parser level at which the second --config (parameters with channel "d") is given
     if selcfg:
         out["selcfg"] = selcfg  # the last `selcfg` sub-command levels are selected by "subcommand" keys in the config
     if cfgpos != "first":
@@ -634,6 +729,31 @@ def selcfg_inputs(sel, stages, nleaves=1, slim=False):
                 yield _inp(sel, _all(stages, "c", 1), as_pos=False, cfgpos="last", **kw)
 
 
+def twocfg_inputs(sel, stages):
+    """The settings come from TWO config sources.
+
+    Every way of distributing the parameters of the path over a first config file (given at the top level, nested
+    sections) and a second one, both used, x every parser level the second file can be given at: 0 = a second
+    --config at the top level right after the first, an intermediate level (the file again holds sections for the
+    levels below it), the component's own level.  Per (distribution, level): everything given with
+    as_positional=False; the same with as_positional=True (where it can be written down); only the required
+    parameters, the others omitted (when they still occupy both files)."""
+    flat = _flat(stages)
+    for combo in itertools.product("cd", repeat=len(flat)):
+        if len(set(combo)) < 2:
+            continue
+        a = [[None] * len(s["sig"]) for s in stages]
+        for (si, i), ch in zip(flat, combo):
+            a[si][i] = [ch, 0]
+        req = [[c if is_required(p) else ["-", 0] for c, p in zip(row, s["sig"])] for row, s in zip(a, stages)]
+        req_chans = {c[0] for row in req for c in row} - {"-"}
+        for lvl in range(1 + min(si for (si, _), ch in zip(flat, combo) if ch == "d")):
+            yield _inp(sel, a, as_pos=False, cfg2=lvl)
+            yield _inp(sel, a, cfg2=lvl)
+            if req != a and req_chans == {"c", "d"}:
+                yield _inp(sel, req, cfg2=lvl)
+
+
 def product_inputs(sel, stages):
     """{omitted, argv, config}^parameters (config at the top level and, for staged forms, at the component's own
     level) plus each required parameter omitted; none of the variation axes of the full plan."""
@@ -665,7 +785,11 @@ def decoy1_inputs(sel, stages):
     yield _inp(sel, _all(stages, "a"))
 
 
-PLANS = {"argv": decoy1_inputs, "full": full_inputs, "product": product_inputs, "lean": lean_inputs, "lean3": lean3_inputs, "decoy": decoy_inputs, "decoy1": decoy1_inputs}
+def no_inputs(sel, stages):
+    return iter(())
+
+
+PLANS = {"none": no_inputs, "argv": decoy1_inputs, "full": full_inputs, "product": product_inputs, "lean": lean_inputs, "lean3": lean3_inputs, "decoy": decoy_inputs, "decoy1": decoy1_inputs}
 
 
 def inputs(program, plan):
@@ -673,7 +797,8 @@ def inputs(program, plan):
     everything on the command line, nothing else), optionally
     suffixed ":deep" (dict form: only the deepest leaf), ":first" (lean3: omit only the first required parameter) or
     ":sel" (additionally `selcfg_inputs`: sub-commands selected through the config, with and without sibling sections)."""
-    plan, _, opt = plan.partition(":")
+    plan, *opts = plan.split(":")
+    opt = next((o for o in opts if o in ("deep", "first")), "")
     lv = leaves(program)
     form = program["form"]
     for sel, stages in enumerate(lv):
@@ -685,11 +810,15 @@ def inputs(program, plan):
             main = sel == 1
         else:
             main = sel == 0
-        if main and plan == "full":
+        if plan == "none":
+            pass  # only the inputs of the suffixes
+        elif main and plan == "full":
             yield from full_inputs(sel, stages, len(lv))
         elif main and plan == "lean3" and opt == "first":
             yield from lean3_inputs(sel, stages, first_only=True)
         else:
             yield from PLANS[plan if main else ("decoy" if plan == "full" else "decoy1")](sel, stages)
-        if opt == "sel":
+        if "sel" in opts:
             yield from selcfg_inputs(sel, stages, len(lv), slim=not main)
+        if "two" in opts and main and not (form == "dict" and opt == "deep" and sel != len(lv) - 1):
+            yield from twocfg_inputs(sel, stages)
